@@ -188,7 +188,7 @@ def build_vc_asan():
     """AddressSanitizer build of vc (nightly). Returns path or raises BuildError."""
     g = _gen_vc()
     td = os.path.join(tdir(), "cargo-asan")
-    env = env_for_cargo("-Zsanitizer=address -Cforce-frame-pointers=yes")
+    env = env_for_cargo(ASAN_RUSTFLAGS)
     with open(os.path.join(tdir(), ".build.lock"), "w") as lk:
         fcntl.flock(lk, fcntl.LOCK_EX)
         _run(["cargo", "+nightly", "build", "--offline", "--release", "--target", "x86_64-unknown-linux-gnu",
@@ -200,7 +200,7 @@ def build_asan(what=("slicec", "vh")):
     """AddressSanitizer builds (nightly) of the real compiler binary and of the library worker / fake generator, from the
     working tree. Returns {name: path} like build()."""
     td = os.path.join(tdir(), "cargo-asan")
-    env = env_for_cargo("-Zsanitizer=address -Cforce-frame-pointers=yes")
+    env = env_for_cargo(ASAN_RUSTFLAGS)
     base = ["cargo", "+nightly", "build", "--offline", "--release", "--target", "x86_64-unknown-linux-gnu", "--target-dir", td]
     out = {}
     rel = os.path.join(td, "x86_64-unknown-linux-gnu", "release")
@@ -217,6 +217,8 @@ def build_asan(what=("slicec", "vh")):
     return out
 
 
+# address + overflow checks + debug assertions in one instrumented build (the in-code monitors of the dev profile, at release speed)
+ASAN_RUSTFLAGS = "-Zsanitizer=address -Cforce-frame-pointers=yes -Coverflow-checks=on -Cdebug-assertions=on"
 ASAN_OPTIONS = "halt_on_error=1:abort_on_error=1:allocator_may_return_null=1:detect_leaks=0:detect_stack_use_after_return=0"
 
 
